@@ -3,7 +3,9 @@
 H (histories, live daemon): generated histories of connections opening, calling and closing against a freshly generated
   class per case with mode single / session / percall, instance shapes truthy / falsy via __len__ or __bool__ / custom
   __eq__+__hash__, with or without an instance creator (which may fail, return the wrong type or an instance of a SUBCLASS on scripted
-  attempts), with an application disconnect hook that may raise.
+  attempts), with an application disconnect hook that may raise; the class may be taken out of the daemon and registered again
+  (or registered once more with force) in the middle of a history; a second daemon serving the same single-mode class may be
+  shut down while a connection to it is still open.
   Every instance takes a serial number in __init__; every call returns it.  A reference model says which serial each
   call must report.  Steps may also be ONEWAY calls (the method records, under a token, which instance served it; the
   first call of a connection / of the daemon may be one, so the instance is created on behalf of a oneway call), the
@@ -100,7 +102,8 @@ def make_class(cid, shape, mode, creator_script):
 step = st.one_of(st.tuples(st.just("call"), st.integers(0, 2)), st.tuples(st.just("call"), st.integers(0, 2)), st.tuples(st.just("oneway"), st.integers(0, 2)),
                  st.tuples(st.sampled_from(["scall", "ccall"]), st.integers(0, 2)),
                  st.tuples(st.just("close"), st.integers(0, 2)), st.tuples(st.just("abort"), st.integers(0, 2)),
-                 st.tuples(st.just("open"), st.integers(0, 2))).map(list)
+                 st.tuples(st.just("open"), st.integers(0, 2)),
+                 st.tuples(st.sampled_from(["rereg", "rereg-force"]), st.integers(0, 2))).map(list)
 
 
 def h_case():
@@ -111,6 +114,7 @@ def h_case():
         "creator": st.one_of(st.none(), st.just(["ok"]), st.just(["subclass"]),
                             st.lists(st.sampled_from(["ok", "ok", "subclass", "raise", "wrongtype", "typeerror"]), min_size=1, max_size=4)),
         "hook_raises": st.integers(0, 4).map(lambda n: n == 0),
+        "close2": st.integers(0, 5).map(lambda n: n == 0),
         "steps": st.lists(step, min_size=1, max_size=14),
         "ser": st.sampled_from(["serpent", "marshal", "json", "msgpack"]),
     })
@@ -172,7 +176,22 @@ def run_h(case, servertype, keep):
     resolved = {}           # token of a creating oneway call -> serial seen by the next synchronous call
     try:
         for n, (op, i) in enumerate(case["steps"]):
-            if op == "open":
+            if op in ("rereg", "rereg-force"):
+                # the application takes the class out of the daemon and registers it again under the same id (or registers it
+                # once more with force): the class keeps its declared instance mode and creator, and every instance that exists stays in use
+                for j in sorted(dirty):
+                    barrier(conns[j])
+                dirty.clear()
+                try:
+                    if op == "rereg":
+                        srv.daemon.unregister(C if i % 2 else oid)
+                        srv.daemon.register(C, oid)
+                    else:
+                        srv.daemon.register(C, oid, force=True)
+                except Exception as x:
+                    viol("harness:reregister", "re-registering the class failed: %r" % (x,))
+                    break
+            elif op == "open":
                 if i not in conns:
                     conns[i] = live.proxy(srv.uri(oid), serializer=case["ser"])
                     conns[i]._pyroBind()
@@ -310,12 +329,32 @@ def run_h(case, servertype, keep):
             try:
                 with live.proxy(srv2.uri(oid), serializer=case["ser"]) as p2:
                     got2 = p2.who()
-                model["attempts"] += 1
-                model["created"] += 1
-                if got2 in model["seen"] or got2 == model["single"]:
-                    viol("single-instance-shared-between-daemons", "a second daemon serving the same 'single' class answered with instance %r, "
-                         "which is the first daemon's" % (got2,))
-                model["seen"].add(got2)
+                    model["attempts"] += 1
+                    model["created"] += 1
+                    if got2 in model["seen"] or got2 == model["single"]:
+                        viol("single-instance-shared-between-daemons", "a second daemon serving the same 'single' class answered with instance %r, "
+                             "which is the first daemon's" % (got2,))
+                    model["seen"].add(got2)
+                    if case.get("close2") and servertype == "thread":
+                        p2._pyroTimeout = 5.0        # (hang guard only: no answer at all is "no service any more", which is fine)
+                        if p2._pyroConnection is not None:
+                            p2._pyroConnection.sock.settimeout(5.0)
+                        # the application shuts that daemon down while this connection is still open: whatever is still served on it
+                        # afterwards (the thread-pool server lets the worker of an established connection finish) is served by THE instance
+                        srv2.stop()
+                        L["served2"] = None
+                        try:
+                            got3 = ("ok", p2.who())
+                        except Exception as x:      # noqa  (no service any more: fine)
+                            got3 = ("err", x)
+                        if got3[0] == "ok" and got3[1] != got2:
+                            viol("single-instance-recreated-after-daemon-shutdown", "after daemon.shutdown() a call on a connection that was still open was served by "
+                                 "instance %r; the daemon's single instance is %r" % (got3[1], got2))
+                        if got3[0] == "ok":
+                            with LOCK:
+                                extra = len(facts["inits"]) - model["created"]
+                            if extra > 0:
+                                model["created"] += extra       # (reported above; keep the global accounting from repeating it)
             except Exception as x:
                 viol("call-failed", "call on the second daemon failed with %r" % (x,))
             finally:
@@ -323,7 +362,10 @@ def run_h(case, servertype, keep):
                     srv2.daemon.unregister(oid)
                 except Exception:
                     pass
-                srv2.daemon._pyroInstances.pop(C, None)
+                try:
+                    srv2.daemon._pyroInstances.pop(C, None)
+                except Exception:
+                    pass
         # global accounting
         if not V:
             for i in sorted(dirty):
